@@ -220,6 +220,19 @@ fn main() {
             check_map(l, cfg, &spec, &map, &menu);
         });
     }
+    // marathon maps: a hard opening (40 notes 100 ms apart) and an easy tail of 1080 notes 400 ms apart — more than 1024
+    // strain sections, and the peaks that decide the rating are the oldest ones
+    {
+        let o = |gap: u32, col: u8| gen::Obj { kind: gen::Kind::Circle, gap, pos: gen::PosK::Far, sound: 0, col };
+        let menu = vec![Setting::nm()];
+        let cfgs: Vec<gen::ModeCfg> = vh::gen::MODE_CFGS.to_vec();
+        ctx.universe("marathon/40-fast+1080-slow", cfgs.len() as u64, |idx, l| {
+            let cfg = cfgs[idx as usize];
+            let spec = gen::MapSpec { stream: (1080, 400), ..gen::MapSpec::new(cfg.src, (0..40u8).map(|i| o(100, i % 4)).collect()) };
+            let map = spec.decode();
+            check_map(l, cfg, &spec, &map, &menu);
+        });
+    }
     // objects at the same time and 10 ms apart (closer than the 25 ms floor that time differences get inside the skills),
     // stacked and far apart, under no mod and Flashlight
     {
